@@ -39,7 +39,7 @@ REQUIRED_MONITORS = ["inside-point-is-located", "located-cell-contains-point", "
                      "interpolator-shapes", "repeated-permuted-points", "one-point-at-a-time"]
 REQUIRED_REACH = ["point:vertex", "point:facet", "point:interior", "point:hole", "point:outside-box",
                   "finder-fallback-search-all", "vector-valued-element", "tensor-valued-element", "coefficient-dtypes",
-                  "single-point-sequence", "query-array-updated-in-place"]
+                  "single-point-sequence", "query-array-updated-in-place", "more-than-2^14-points", "offset-along-one-axis"]
 
 F = Fraction
 
@@ -105,6 +105,24 @@ class ExactLocator:
                 out.append(int(c))
         return out
 
+    def near(self, x, tol):
+        """Cells whose closed set is within the absolute distance `tol` of the point (every bounding plane violated by
+        at most tol; exact evaluation of the plane functions)."""
+        xf = np.asarray(x, dtype=float)
+        cand = np.nonzero(((self.lo - tol <= xf[:, None]) & (self.hi + tol >= xf[:, None])).all(axis=0))[0]
+        xq = X.frv(xf)
+        out = []
+        for c in cand:
+            ok = True
+            for (n, off, s), (nf, _, _) in zip(self.planes[c], self.fplanes[c]):
+                v = sum(n[i] * xq[i] for i in range(len(xq))) - off
+                if float(v * s) < -tol * float(np.linalg.norm(nf)):
+                    ok = False
+                    break
+            if ok:
+                out.append(int(c))
+        return out
+
     def violation(self, c, x, h):
         """How far (relative to h) the point is outside cell c (0 if inside), float evaluation."""
         worst = 0.0
@@ -147,8 +165,15 @@ def gen_mesh(ctx, rng, kind, k):
         mc = (G.hex_mesh(ctx.rng("again", tries), style="tensor") if kind == "hex" else G.first_order(ctx.rng("again", tries), kind))
     mesh = mc.mesh
     # large offsets / scalings stress absolute tolerances (every 4th case)
-    if k % 4 == 3:
-        p = np.asarray(mesh.p) * float(2.0 ** rng.integers(-8, 9)) + rng.integers(-1000, 1001, size=(mesh.p.shape[0], 1)).astype(float)
+    if k % 4 == 3 or (k % 4 == 1 and kind in ("tet", "hex", "wedge")):
+        off = rng.integers(-1000, 1001, size=(mesh.p.shape[0], 1)).astype(float)
+        if rng.random() < 0.5:
+            # far from the origin along one axis only (an elevation, a northing)
+            ax = int(rng.integers(mesh.p.shape[0])) if rng.random() < 0.4 else mesh.p.shape[0] - 1
+            off = np.zeros((mesh.p.shape[0], 1))
+            off[ax] = float(rng.choice([-1.0, 1.0]) * rng.integers(1000, 6000)) + 0.5
+            ctx.reached("offset-along-one-axis")
+        p = np.asarray(mesh.p) * float(2.0 ** rng.integers(-8, 9)) + off
         mesh = type(mesh)(p, np.asarray(mesh.t))
         mc = G.MeshCase(mesh, kind, 1, dict(mc.desc, offset=True), affine_cells=mc.affine_cells, planar_faces=mc.planar_faces)
     return mc
@@ -261,8 +286,22 @@ def one_mesh(ctx, k, kind):
                           cls=cls, returned=None if c is None else int(np.asarray(c).ravel()[0]), **tag)
                 ctx.nontrivial(type(mesh).__name__, cls, "raised" if raised is not None else "returned")
             else:
-                # rounding moved a facet/vertex point of the *boundary* marginally outside: not judged
-                ctx.drop("band-around-boundary-not-judged")
+                # rounding moved a facet/vertex point of the *boundary* marginally outside.  The nearest doubles of a
+                # boundary point are how a caller names that point: within 4 ulp-units of |x| of a cell the finder has
+                # to answer (with a cell that contains the point up to that rounding); further out it is not judged.
+                tol = 4 * 2.3e-16 * float(np.abs(x).max())
+                nearc = loc.near(x, tol) if d >= 2 else []
+                if nearc:
+                    ok = raised is None
+                    if ok:
+                        c_ = int(np.asarray(c).ravel()[0])
+                        ok = 0 <= c_ < loc.nt and loc.violation(c_, x, float(hcell[c_])) <= \
+                            1e-9 + 64 * 2.2e-16 * float(np.abs(x).max()) / float(hcell[c_])
+                    ctx.check("inside-point-is-located", ok, mech=f"finder-rejects-nearest-double-of-a-boundary-point:{kind}",
+                              point=x, cls=cls, nearest_cells=nearc[:4], raised=raised is not None, **tag)
+                    ctx.reached("boundary-point-rounded-outside")
+                else:
+                    ctx.drop("band-around-boundary-not-judged")
     # many points at once, repeated and permuted: same answers as one by one
     inside_pts = [x for cls, x in pts if cls == "interior"]
     if len(inside_pts) >= 3:
@@ -485,6 +524,40 @@ def probes_case(ctx, k, kind):
     ctx.sample(dict(tag, tensor_shape=list(tshape)), per_family=1)
 
 
+def probes_many(ctx, k):
+    """More query points than any internal block size (2^14 + a few thousand), scalar / vector / tensor valued: every
+    row of the probing matrix still belongs to its own point and component."""
+    import skfem
+    rng = ctx.rng()
+    kind, names = [("tri", ("Vector(ElementTriP1)", "ElementTriP2")), ("quad", ("Vector(ElementQuad1)", "ElementQuad1")),
+                   ("tet", ("Vector(ElementTetP1)", "ElementTetP1")), ("tri", ("ElementTriRT1", "ElementTriP1"))][k % 4]
+    rec = [r for r in EL.all_for_kind(kind, wrappers=True) if r.name == names[(k // 4) % 2]][0]
+    mc = gen_mesh(ctx, rng, kind, 0)
+    mesh = mc.mesh
+    basis = skfem.CellBasis(mesh, rec.make())
+    y = rng.standard_normal(basis.N)
+    P, T = np.asarray(mesh.p), np.asarray(mesh.t)
+    npts = 2 ** 14 + int(rng.integers(100, 4000))
+    cells0 = rng.integers(0, T.shape[1], size=npts)
+    Xr = GEO.random_ref_points(rng, kind, npts)                                             # (d, npts)
+    x = np.zeros((P.shape[0], npts))
+    for c in np.unique(cells0):
+        sel = np.nonzero(cells0 == c)[0]
+        x[:, sel] = GEO.map_points(kind, P, T, Xr[:, sel], np.array([c]))[:, 0, :]
+    cells = np.asarray(mesh.element_finder()(*x))
+    ref = own_evaluate(basis, rec, cells, x, y)
+    tshape = ref.shape[:-1]
+    tag = dict(elem=rec.name, mesh=type(mesh).__name__, npts=npts, tensor_shape=list(tshape))
+    scale = float(np.abs(ref).max()) + float(np.abs(y).max()) * 1e-3
+    got = np.asarray(basis.probes(x) @ y).reshape(tshape + (npts,))
+    ctx.close("probes-equal-local-expansion", got, ref, rtol=1e-9, scale=scale, mech=f"probes-many-points:{rec.name.split('(')[0]}", **tag)
+    v = basis.interpolator(y)(x)
+    ctx.check("interpolator-shapes", v.shape == tshape + (npts,), mech="interpolator-shape-many-points", shape=v.shape, **tag)
+    ctx.close("probes-equal-local-expansion", v, ref, rtol=1e-9, scale=scale, mech=f"interpolator-many-points:{rec.name.split('(')[0]}", **tag)
+    ctx.reached("more-than-2^14-points")
+    ctx.nontrivial(rec.name, "many-points", bool(tshape))
+
+
 def fam(fn, kind):
     return lambda ctx, k: fn(ctx, k, kind)
 
@@ -496,3 +569,4 @@ for kd in ("line", "tri", "quad", "tet", "hex", "wedge"):
     n = (lambda ctx, kd=kd: len([r for r in EL.all_for_kind(kd, wrappers=True) if not r.skeleton and r.mesh_req == "any"
                                   and not r.name.startswith("Composite(")]) * (2 if ctx.tier == "quick" else 30))
     FAMILIES.append(Family("probes-" + kd, fam(probes_case, kd), n, n, budget={"quick": 30, "thorough": 600}))
+FAMILIES.append(Family("probes-many", probes_many, 4, 32, budget={"quick": 40, "thorough": 300}))
